@@ -311,6 +311,26 @@ func runOp(f []string) string {
 			}
 			return fmt.Sprintf("%s used=%d reads=%s", strErr(s, err), rd.used, rs)
 		})
+	case "N2": // N2 n1 n2 lang script1 script2: ONE reader object (script1 then script2) stays installed over two calls
+		sc := f[4]
+		if f[5] != "-" {
+			if sc == "-" {
+				sc = f[5]
+			} else {
+				sc += "," + f[5]
+			}
+		}
+		rd := parseScript(sc)
+		return guard(func() string {
+			swapMu.Lock()
+			defer swapMu.Unlock()
+			old := swapRandSource(rd)
+			defer swapRandSource(old)
+			s1, err1 := bip39.NewMnemonic(atoi(f[1]), lang(f[3]))
+			u1 := rd.used
+			s2, err2 := bip39.NewMnemonic(atoi(f[2]), lang(f[3]))
+			return fmt.Sprintf("%s used=%d || %s used=%d", strErr(s1, err1), u1, strErr(s2, err2), rd.used-u1)
+		})
 	case "C":
 		s := string(unhex(f[2]))
 		lang := lang(f[1])
